@@ -118,7 +118,12 @@ class RecordingProblem(Problem):
             raise BudgetAbort("evaluation cap %d exceeded" % self.cap)
         if self.inside_hook is not None and ph == "g":
             self.inside_hook(self)
-        if self.fault is not None and (self.fault[0] == i or (len(self.fault) > 2 and self.fault[2] and i > self.fault[0])):
+        if isinstance(self.fault, dict):
+            # a fault SEQUENCE: one-shot failures at several evaluation indices {index: exception class}
+            if i in self.fault:
+                ent["exc"] = self.fault[i].__name__
+                raise self.fault[i]("injected fault at evaluation %d" % i)
+        elif self.fault is not None and (self.fault[0] == i or (len(self.fault) > 2 and self.fault[2] and i > self.fault[0])):
             # one-shot fault on the k-th call; with fault[2] true the objective keeps failing on every later call
             ent["exc"] = self.fault[1].__name__
             raise self.fault[1]("injected fault at evaluation %d" % i)
@@ -285,6 +290,13 @@ def make_params(scn):
         r_ = scn["r"]
         scn = dict(scn, eps=conv[0](scn["eps"]), r=(int(r_) if nt == "py" and float(r_).is_integer() else (conv[1](r_) if float(conv[1](r_)) == float(r_) else r_)),
                    iters=conv[2](scn["iters"]))
+    sp = scn.get("start_point")
+    if sp is not None:
+        # SolverParameters.startPoint is documented ("initial approximation") and accepted; the method starts at x = 0.5 regardless
+        from iOpt.trial import Point as _P
+        p = make_params(dict(scn, start_point=None))
+        p.startPoint = _P(np.array(sp, dtype=np.double), [])
+        return p
     if how == "assign":
         p = SolverParameters()
         p.eps = scn["eps"]
